@@ -1,0 +1,8 @@
+//go:build !verif
+
+// Package vhook provides verification hook points. Without the "verif" build
+// tag every hook is an empty function that the compiler inlines away.
+package vhook
+
+// Yield marks a point between two critical sections.
+func Yield(string) {}
